@@ -128,6 +128,50 @@ func libdiffCase(rep *Report, s *glue.Subject, d MD, idx int) {
 	D := BuildDyn(v)
 	bad := func(key, detail string) { rep.Violate("C10", "libdiff/"+key, tn, detail, rc) }
 
+	// ---- hand-built state: nil pointers as list elements / map values read as empty messages; the library
+	// algorithms see them exactly as the reference sees the corresponding empty messages
+	if idx%4 == 1 && !hasRequiredBelow(d) {
+		N := BuildStruct(s.Zero, v)
+		if nilOutMessages(reflect.ValueOf(N), r, 0) > 0 {
+			nv := Canon(StructToIR(N))
+			nwant := SpecEncode(nv)
+			ND := BuildDyn(nv)
+			E := BuildStruct(s.Zero, nv) // the same value with empty messages instead of nil pointers
+			rep.Count("C10", "states-with-nil-elements", 1)
+			pan, pmsg := safely(func() {
+				if !proto.Equal(N, E) || !proto.Equal(E, N) {
+					bad("nil-elements/equal", "a message holding nil pointers as elements is not Equal (in both orders) to the same message holding empty messages")
+				}
+				if got := SpecEncode(quietF32(Canon(ReflToIR(proto.Clone(N).ProtoReflect())))); !bytes.Equal(got, SpecEncode(quietF32(nv))) {
+					bad("nil-elements/clone", "Clone of a message holding nil elements: "+firstDiff(got, nwant))
+				}
+				dst := newOf(s.Zero)
+				proto.Merge(dst, N)
+				if got := SpecEncode(quietF32(Canon(ReflToIR(dst.ProtoReflect())))); !bytes.Equal(got, SpecEncode(quietF32(nv))) {
+					bad("nil-elements/merge", "Merge from a message holding nil elements: "+firstDiff(got, nwant))
+				}
+				ja, e1 := protojson.Marshal(N)
+				jb, e2 := protojson.Marshal(ND)
+				if (e1 == nil) != (e2 == nil) || (e1 == nil && !bytes.Equal(ja, jb)) {
+					bad("nil-elements/json", fmt.Sprintf("protojson of a message holding nil elements: %s (err %v), reference %s (err %v)", trunc(string(ja)), e1, trunc(string(jb)), e2))
+				}
+				ta, e1 := prototext.MarshalOptions{Multiline: false}.Marshal(N)
+				tb, e2 := prototext.MarshalOptions{Multiline: false}.Marshal(ND)
+				if (e1 == nil) != (e2 == nil) {
+					bad("nil-elements/text", fmt.Sprintf("prototext err %v, reference err %v", e1, e2))
+				} else if e1 == nil {
+					x, y := newOf(s.Zero), dynamicpb.NewMessage(d)
+					if prototext.Unmarshal(ta, x) != nil || prototext.Unmarshal(tb, y) != nil || !bytes.Equal(SpecEncode(quietF32(Canon(ReflToIR(x.ProtoReflect())))), SpecEncode(quietF32(Canon(ReflToIR(y))))) {
+						bad("nil-elements/text", "text of a message holding nil elements parses back to another value than the reference text")
+					}
+				}
+			})
+			if pan {
+				bad("nil-elements/panic", pmsg)
+			}
+		}
+	}
+
 	// ---- Equal: reflexive, against clones, against unequal variants (both argument orders) = reference verdicts
 	if !proto.Equal(S, S) {
 		bad("equal-self", "Equal(m, m) is false")
